@@ -285,8 +285,11 @@ def main(run, args):
         suite, prov = (1, rng.choice(["openssl", "awslc", "rustcrypto"])) if rng.chance(2, 3) else rng.choice([(7, "openssl"), (4, "openssl")])
         a = SUITE_ALG[suite]
         nh = SUITE_NH[a]
-        c = {"kind": "transcript", "alg": a, "interim": rng.bytes(nh) if rng.chance(4, 5) else b"", "ac": ac, "ck": rng.bytes(nh), "suite": suite, "prov": prov}
-        reqs.append(({"op": "transcript", "suite": suite, "provider": prov, "interim": c["interim"].hex(), "ac": ac.hex(), "confirm_key": c["ck"].hex()}, c))
+        # the same content as it is authenticated inside a PrivateMessage: wire_format = mls_private_message (2);
+        # RFC 9420 8.2 hashes the wire format of the commit as it was sent
+        tac = (b"\x00\x02" + ac[2:]) if rng.chance(1, 2) else ac
+        c = {"kind": "transcript", "alg": a, "interim": rng.bytes(nh) if rng.chance(4, 5) else b"", "ac": tac, "ck": rng.bytes(nh), "suite": suite, "prov": prov}
+        reqs.append(({"op": "transcript", "suite": suite, "provider": prov, "interim": c["interim"].hex(), "ac": tac.hex(), "confirm_key": c["ck"].hex()}, c))
         c2 = {"kind": "mtag", "alg": a, "ac": ac, "ctx": group_context(rng, suite, nh), "key": rng.bytes(nh), "suite": suite, "prov": prov}
         reqs.append(({"op": "mtag", "suite": suite, "provider": prov, "ac": ac.hex(), "ctx": c2["ctx"].hex(), "key": c2["key"].hex()}, c2))
     # ---- run the implementation
